@@ -24,13 +24,15 @@ SHAPES = [
     ("e_dr", ["e", "dr"]), ("r_fr", ["r", "r"]),
     ("ab_r", ["b", "r"]), ("abv", ["bv"]), ("dyn_r", ["b", "r"]), ("rband_r", ["band", "r"]), ("rbor", ["bor"]),
     ("rbnot_r", ["bnot", "r"]),
+    ("res_fb_r", ["b", "r"]), ("res_rb_r", ["b", "r"]), ("res_reb_r", ["b", "r"]),
+    ("res_fmcs_w", ["csm", "w"]), ("res_wcs_w", ["csm", "w"]), ("res_wecs_w", ["csm", "w"]),
     ("u_n", ["n"]), ("u_m", ["m"]), ("u_n_m", ["n", "m"]), ("u_mw", ["mw"]), ("u_bnot_m", ["bnot", "m"]), ("a3", ["w", "r", "r"]), ("a4", ["r", "w", "r", "m"]),
     ("a5", ["e", "r", "w", "n", "r"]), ("a8", ["w", "r", "r", "r", "r", "r", "m", "r"]),
     ("a16", ["w"] + ["r"] * 15), ("a16e", ["e", "w"] + ["r"] * 13 + ["m"]),
 ]
-SEQ_ONLY = {"cs_r", "csm_w", "csv_r", "dr_r", "dr", "e_dr", "dyn_r"}          # no ParJoin
+SEQ_ONLY = {"cs_r", "csm_w", "csv_r", "dr_r", "dr", "e_dr", "dyn_r", "res_fmcs_w", "res_wcs_w", "res_wecs_w"}          # no ParJoin
 UNC = {"u_n", "u_m", "u_n_m", "u_mw", "u_bnot_m"}               # walk all 2^24 indices
-NO_GET = {"csv_r", "dr_r", "dr", "e_dr", "csm_w", "e_rsm"} | UNC           # no lend_get in the harness
+NO_GET = {"csv_r", "dr_r", "dr", "e_dr", "csm_w", "e_rsm", "res_fmcs_w", "res_wcs_w", "res_wecs_w"} | UNC           # no lend_get in the harness
 NO_LEND = {"e_rsm", "dr", "e_dr"}
 VEC_BACKED_MAX = 300000          # positions backed by VecStorage / DefaultVecStorage
 VEC_POS = {0, 4, 5, 9, 10, 14, 16}  # member positions whose storage is vector-backed (see join_dom.rs by_pos)
